@@ -35,12 +35,41 @@ func fieldFuncCall(c ssa.CallInstruction, tname, fname string) bool {
 
 // extractOf reports whether v (conversions stripped) is result #idx of call.
 func extractOf(v ssa.Value, call ssa.Value, idx int) bool {
+	if extractOfLocal(v, call, idx) {
+		return true
+	}
+	// the same question with helper boundaries resolved (the call may sit in a helper that hands its result up,
+	// or v may be a helper's parameter that receives the result)
+	for _, root := range []*ssa.Function{valueParent(v), valueParent(call)} {
+		if root == nil {
+			continue
+		}
+		if w := core.RegionOf(root).Canon(v); w != core.Strip(v) && extractOfLocal(w, call, idx) {
+			return true
+		}
+	}
+	return false
+}
+
+func extractOfLocal(v ssa.Value, call ssa.Value, idx int) bool {
 	v = core.Strip(v)
 	if e, ok := v.(*ssa.Extract); ok {
 		return e.Tuple == call && e.Index == idx
 	}
 	// single-result call
 	return idx == 0 && v == call
+}
+
+func valueParent(v ssa.Value) *ssa.Function {
+	switch x := v.(type) {
+	case ssa.Instruction:
+		return x.Parent()
+	case *ssa.Parameter:
+		return x.Parent()
+	case *ssa.FreeVar:
+		return x.Parent()
+	}
+	return nil
 }
 
 // paramOfType returns the first parameter of fn whose type is the named type pkgRel.name.
@@ -55,7 +84,7 @@ func paramOfType(fn *ssa.Function, pkgRel, name string) *ssa.Parameter {
 
 func findCalls(fn *ssa.Function, pred func(ssa.CallInstruction) bool) []ssa.CallInstruction {
 	var out []ssa.CallInstruction
-	for _, c := range core.Calls(fn) {
+	for _, c := range core.CallsR(fn) {
 		if pred(c) {
 			out = append(out, c)
 		}
@@ -76,6 +105,7 @@ func derivesFromCallResult(v ssa.Value, call ssa.Value, idx int) bool {
 
 // loaderFacts gathers the values a direct load function is made of.
 type loaderFacts struct {
+	rg          *core.Region
 	fn          *ssa.Function
 	lsys        *ssa.Parameter
 	lnk         *ssa.Parameter
@@ -92,7 +122,7 @@ type loaderFacts struct {
 // has been identified, any hasher chosen in this activation).
 func isHasher(lf *loaderFacts, v ssa.Value) bool {
 	for _, hc := range lf.hasherCalls {
-		if extractOf(v, hc, 0) && (lf.compared == nil || lf.compared[hc]) {
+		if (extractOf(v, hc, 0) || extractOf(lf.rg.Canon(v), hc, 0)) && (lf.compared == nil || lf.compared[hc]) {
 			return true
 		}
 	}
@@ -100,12 +130,13 @@ func isHasher(lf *loaderFacts, v ssa.Value) bool {
 }
 
 func gatherLoader(p *core.Program, fn *ssa.Function) *loaderFacts {
-	lf := &loaderFacts{fn: fn, equalEdges: map[core.Edge]bool{}, trusted: map[core.Edge]bool{}}
+	rg := core.RegionOf(fn)
+	lf := &loaderFacts{rg: rg, fn: fn, equalEdges: map[core.Edge]bool{}, trusted: map[core.Edge]bool{}}
 	if len(fn.Params) > 0 {
 		lf.lsys = fn.Params[0]
 	}
 	lf.lnk = paramOfType(fn, "datamodel", "Link")
-	for _, c := range core.Calls(fn) {
+	for _, c := range core.CallsR(fn) {
 		call := core.CallValue(c)
 		if call == nil {
 			continue
@@ -117,7 +148,7 @@ func gatherLoader(p *core.Program, fn *ssa.Function) *loaderFacts {
 			lf.hasherCalls = append(lf.hasherCalls, call)
 		}
 	}
-	for _, c := range core.Calls(fn) {
+	for _, c := range core.CallsR(fn) {
 		call := core.CallValue(c)
 		if call == nil {
 			continue
@@ -129,7 +160,7 @@ func gatherLoader(p *core.Program, fn *ssa.Function) *loaderFacts {
 	comparedNow := map[*ssa.Call]bool{}
 	isLnkBinary := func(v ssa.Value) bool {
 		c, ok := v.(*ssa.Call)
-		return ok && core.IsMethodNamed(c, "Binary") && lf.lnk != nil && core.Strip(core.Receiver(c)) == ssa.Value(lf.lnk)
+		return ok && core.IsMethodNamed(c, "Binary") && lf.lnk != nil && rg.Canon(core.Receiver(c)) == ssa.Value(lf.lnk)
 	}
 	isComputedBinary := func(v ssa.Value) bool {
 		c, ok := v.(*ssa.Call)
@@ -143,7 +174,7 @@ func gatherLoader(p *core.Program, fn *ssa.Function) *loaderFacts {
 			return false
 		}
 		pr, ok := core.Strip(core.Receiver(bl)).(*ssa.Call)
-		if !ok || !core.IsMethodNamed(pr, "Prototype") || lf.lnk == nil || core.Strip(core.Receiver(pr)) != ssa.Value(lf.lnk) {
+		if !ok || !core.IsMethodNamed(pr, "Prototype") || lf.lnk == nil || rg.Canon(core.Receiver(pr)) != ssa.Value(lf.lnk) {
 			return false
 		}
 		args := core.Args(bl)
@@ -157,7 +188,7 @@ func gatherLoader(p *core.Program, fn *ssa.Function) *loaderFacts {
 		for _, s := range lf.sums {
 			if s == sum {
 				for _, hc := range lf.hasherCalls {
-					if extractOf(core.Receiver(s), hc, 0) {
+					if extractOf(core.Receiver(s), hc, 0) || extractOf(rg.Canon(core.Receiver(s)), hc, 0) {
 						comparedNow[hc] = true
 					}
 				}
@@ -167,7 +198,7 @@ func gatherLoader(p *core.Program, fn *ssa.Function) *loaderFacts {
 		return false
 	}
 	defer func() { lf.compared = comparedNow }()
-	for _, b := range fn.Blocks {
+	for _, b := range rg.Blocks() {
 		ifi := core.BlockIf(b)
 		if ifi == nil {
 			continue
@@ -185,10 +216,12 @@ func gatherLoader(p *core.Program, fn *ssa.Function) *loaderFacts {
 
 // errorOrigin classifies where a NonNil error value comes from.
 func allowedPreCheckError(lf *loaderFacts, v ssa.Value, copyCalls []*ssa.Call) (bool, string) {
-	sl := core.BackSlice(v, core.SliceOpts{Stores: true, Stop: func(w ssa.Value) bool {
+	sl := core.BackSlice(v, core.SliceOpts{Stores: true, Region: lf.rg, Stop: func(w ssa.Value) bool {
 		switch w.(type) {
-		case *ssa.MakeInterface, *ssa.Extract, *ssa.Call:
+		case *ssa.MakeInterface:
 			return true
+		case *ssa.Extract, *ssa.Call:
+			return !lf.rg.IsHelperResult(w) // the error a helper returns is classified by what the helper returns
 		}
 		return false
 	}})
@@ -205,6 +238,9 @@ func allowedPreCheckError(lf *loaderFacts, v ssa.Value, copyCalls []*ssa.Call) (
 				why = "error value of type " + core.TypeString(x.X.Type())
 			}
 		case *ssa.Extract:
+			if lf.rg.IsHelperResult(x) {
+				continue
+			}
 			leaf++
 			switch {
 			case lf.opener != nil && x.Tuple == ssa.Value(lf.opener):
@@ -226,10 +262,16 @@ func allowedPreCheckError(lf *loaderFacts, v ssa.Value, copyCalls []*ssa.Call) (
 				}
 			}
 		case *ssa.Call:
+			if lf.rg.IsHelperResult(x) {
+				continue
+			}
 			leaf++
 			okAll = false
 			why = "error produced by " + x.String()
 		case *ssa.Parameter, *ssa.Global, *ssa.FreeVar:
+			if pa, ok := w.(*ssa.Parameter); ok && pa.Parent() != lf.fn && lf.rg.Has(pa.Parent()) {
+				continue // a helper's parameter: its arguments are in the slice
+			}
 			leaf++
 			okAll = false
 			why = "error from " + w.String()
@@ -311,7 +353,7 @@ func runC06(c *core.Ctx) {
 		}
 		c.OK(key+"#compare", lf.compareDesc[0], "hash comparison identified: both sides are Binary() of the requested link and of the link rebuilt from the per-call hasher's Sum")
 		var copyCalls []*ssa.Call
-		for _, ci := range core.Calls(fn) {
+		for _, ci := range core.CallsR(fn) {
 			if core.IsPkgFunc(ci, "io", "Copy") || core.IsPkgFunc(ci, "io", "ReadAll") {
 				if cv := core.CallValue(ci); cv != nil {
 					copyCalls = append(copyCalls, cv)
@@ -621,7 +663,7 @@ func runC06(c *core.Ctx) {
 	if st := p.Func("linking", "*LinkSystem", "Store"); st != nil {
 		key := core.FuncKey(st)
 		var opener, chooser *ssa.Call
-		for _, ci := range core.Calls(st) {
+		for _, ci := range core.CallsR(st) {
 			if fieldFuncCall(ci, "LinkSystem", "StorageWriteOpener") {
 				opener = core.CallValue(ci)
 			}
@@ -634,7 +676,7 @@ func runC06(c *core.Ctx) {
 		} else {
 			var enc []*ssa.Call
 			var commits []ssa.CallInstruction
-			for _, ci := range core.Calls(st) {
+			for _, ci := range core.CallsR(st) {
 				cc := ci.Common()
 				if cc.IsInvoke() || cc.StaticCallee() != nil {
 					continue
@@ -650,9 +692,9 @@ func runC06(c *core.Ctx) {
 			}
 			nilEdges := map[core.Edge]bool{}
 			for _, e := range enc {
-				for _, b := range st.Blocks {
+				for _, b := range core.RegionOf(st).Blocks() {
 					if ifi := core.BlockIf(b); ifi != nil {
-						if s, ok := core.NilSucc(ifi, func(v ssa.Value) bool { return core.Strip(v) == ssa.Value(e) }); ok {
+						if s, ok := core.NilSucc(ifi, func(v ssa.Value) bool { return core.SameValue(v, e) }); ok {
 							nilEdges[core.Edge{From: b, Succ: s}] = true
 						}
 					}
